@@ -1,6 +1,8 @@
 package main
 
 import (
+	"os"
+	"strings"
 	"fmt"
 	"go/token"
 	"go/types"
@@ -122,6 +124,8 @@ func (fr *Frame) execAppend(c *ssa.CallCommon, resT types.Type, st *State, r str
 	if n == "0" {
 		return s
 	}
+	pre := st.clone()
+	fr.appendPre = &pre
 	newLen := vc.bind(nameOf+"_len", SInt, app("+", s[2], n))
 	inplace := vc.bindBool(nameOf+"_inplace", app("<=", newLen, s[3]))
 	newRef := vc.allocRef(st, nameOf)
@@ -170,7 +174,59 @@ func (fr *Frame) execAppend(c *ssa.CallCommon, resT types.Type, st *State, r str
 		}
 		vc.setRowAlts(st, srt, R, row, []string{s[0], newRef})
 	}
+	// sequences of Variables: appending concatenates (stated when the contract under verification speaks of seqOf)
+	if os.Getenv("GOVC_DEBUG") != "" {
+		fmt.Fprintln(os.Stderr, "append:", isIfaceT(elem), srcIsString, fr.conMentions("seqOf"))
+	}
+	if isIfaceT(elem) && !srcIsString && fr.conMentions("seqOf") {
+		sfOf, ok1 := fr.eng.cs.lookupSpec("", "seqOf")
+		sfCat, ok2 := fr.eng.cs.lookupSpec("", "seqCat")
+		if ok1 && ok2 {
+			env := fr.newEnv(st)
+			res := tval{T: c.Args[0].Type(), C: []string{R, O, newLen, C}}
+			a0, e0 := env.applySpec(sfOf, []tval{{T: c.Args[0].Type(), C: s, St: fr.appendPre}})
+			a1, e1 := env.applySpec(sfOf, []tval{{T: c.Args[1].Type(), C: t, St: fr.appendPre}})
+			a2, e2 := env.applySpec(sfOf, []tval{res})
+			if e0 == nil && e1 == nil && e2 == nil {
+				if cat, e3 := env.applySpec(sfCat, []tval{a0, a1}); e3 == nil {
+					vc.assert(sImp(r, sEq(a2.C[0], cat.C[0])))
+				} else if os.Getenv("GOVC_DEBUG") != "" {
+					fmt.Fprintln(os.Stderr, "seq fact:", e3)
+				}
+			} else if os.Getenv("GOVC_DEBUG") != "" {
+				fmt.Fprintln(os.Stderr, "seq fact:", e0, e1, e2)
+			}
+		}
+	}
 	return []string{R, O, newLen, C}
+}
+
+func (fr *Frame) conMentions(word string) bool {
+	top := fr
+	for top.parent != nil {
+		top = top.parent
+	}
+	con := top.con
+	if con == nil {
+		return false
+	}
+	has := func(cs []Clause) bool {
+		for _, c := range cs {
+			if strings.Contains(c.Text, word) {
+				return true
+			}
+		}
+		return false
+	}
+	if has(con.Requires) || has(con.Ensures) || has(con.Lemmas) {
+		return true
+	}
+	for _, l := range con.Loops {
+		if has(l) {
+			return true
+		}
+	}
+	return false
 }
 
 func (fr *Frame) execCopy(c *ssa.CallCommon, st *State, r string, nameOf string) []string {
